@@ -198,6 +198,11 @@ def run(ctx):
         c2s(ctx, 500, 150)
     else:
         c2s(ctx, 8000, 100000)
+    # whole sessions against System.tla: this check judges the rejections at the "readnotes" event
+    from . import system_common as sysc
+    sessions, sverdict = sysc.run_sessions(ctx, 150 if ctx.quick else 3000, ctx.seed + 7)
+    sysc.judge(ctx, "C07", sessions, sverdict, {"readnotes"}, "reading a chart's notes inside a session")
+    ctx.notes["sessions_with_a_readnotes_event"] = sum(1 for s_ in sessions if any(e["op"] == "readnotes" for e in s_["events"]))
     ctx.exhaustive = True
     ctx.rule = ("S2C: every grid of the bounded MC_NoteData configurations x 3 layouts; C2S: generated well-formed texts "
                 "+ 8-measure windows of corpus charts; non-trivial = at least one note; distinct = distinct text")
